@@ -450,6 +450,14 @@ func c13FaultDocs() []c13fv {
 		{"declared-twice-url-and-method", "JSIGHT 0.3\nURL /a/{id}\n  Path\n    {\n      \"id\": 1\n    }\n  GET\n    Path\n      {\n        \"id\": 2\n      }\n    200 any\n"},
 		{"declared-twice-prefix-and-longer", "JSIGHT 0.3\nGET /a/{id}\n  Path\n    {\n      \"id\": 1\n    }\n  200 any\nGET /a/{id}/b\n  Path\n    {\n      \"id\": 2\n    }\n  200 any\n"},
 	}
+	// a parameter declared twice for one prefix when both declarations are pastes of ONE macro
+	mp := "MACRO @mp\n(\n  Path\n    {\n      \"id\": 1\n    }\n)\n"
+	faults = append(faults,
+		fv{"declared-twice-by-two-pastes-methods", "JSIGHT 0.3\n" + mp + "GET /a/{id}\n(\n  PASTE @mp\n  200 any\n)\nPOST /a/{id}\n(\n  PASTE @mp\n  200 any\n)\n"},
+		fv{"declared-twice-by-two-pastes-prefix-and-longer", "JSIGHT 0.3\n" + mp + "URL /a/{id}\n(\n  PASTE @mp\n  GET\n    200 any\n)\nURL /a/{id}/b\n(\n  PASTE @mp\n  GET\n    200 any\n)\n"},
+		fv{"declared-twice-by-two-pastes-url-and-method", "JSIGHT 0.3\n" + mp + "URL /a/{id}\n(\n  PASTE @mp\n  GET\n  (\n    PASTE @mp\n    200 any\n  )\n)\n"},
+		fv{"declared-twice-paste-and-literal", "JSIGHT 0.3\n" + mp + "GET /a/{id}\n(\n  PASTE @mp\n  200 any\n)\nPOST /a/{id}\n(\n  Path\n    {\n      \"id\": 2\n    }\n  200 any\n)\n"},
+	)
 	// a type a path parameter cannot have (object, array, undefined), named by a rule of the
 	// parameter: in every rule form and at every position among the alternatives
 	extra := "TYPE @ob\n  {\"x\": 1}\nTYPE @ar\n  [1]\nTYPE @vi\n  1\n"
